@@ -325,6 +325,8 @@ class Interp:
                     self.out.stats.hit("probes.context_inside_finally_while_exception_propagates")
                 sig2 = self.block(s["fin"])
             sig = sig or sig2
+        elif kind == "decorated":
+            sig = self.do_decorated(k, s)
         elif kind == "func":
             self.emit(f"{k} FUNC")
             sig = self.block(s["body"])
@@ -366,12 +368,21 @@ class Interp:
             st.hit("probes.depth4_reached")
         if any(key in f for f in self._frames for key in kw):
             st.hit("probes.same_key_in_nested_contexts")
-        self._frames.append(set(kw))
+        my_frame = set(kw)
+        self._frames.append(my_frame)
         entered = False
         sig = None
         try:
             try:
                 cm = self.S.context(**real)
+                if s.get("pre"):
+                    # the context object is created now and entered later (contexts prepared up front, ExitStack):
+                    # "previous value" means the value at *entry*
+                    st.hit("probes.context_created_before_it_is_entered")
+                    frame_sig = self.block(s["pre"])
+                    if frame_sig:
+                        return frame_sig
+                    frame = {key: self.model[key] for key in kw}
                 with cm:
                     entered = True
                     for key, code in kw.items():
@@ -385,7 +396,8 @@ class Interp:
                     finally:
                         self.ctx_depth -= 1
             finally:
-                self._frames.pop()
+                if self._frames and self._frames[-1] is my_frame:
+                    self._frames.pop()
                 # the model leaves the context by whatever path Python left it
                 if entered:
                     for key in kw:
@@ -408,6 +420,64 @@ class Interp:
         return sig
 
     _frames: list
+
+    def do_decorated(self, k: int, s: dict) -> str | None:
+        """The context used as a decorator (contextlib.ContextDecorator): one context object, created once, wraps a
+        function; every call enters and leaves the context afresh, so "previous value" is the value at each call."""
+        kw = s["kw"]
+        real = {key: realize(key, code) for key, code in kw.items()}
+        st = self.out.stats
+        st.hit("probes.context_used_as_decorator")
+        self.emit(f"{k} DECORATED x{s.get('calls', 2)} " + ",".join(f"{a}={kw[a]!r}" for a in sorted(kw)))
+        self.sig.append("@{" + "".join(sorted(a[0] + a[-1] for a in kw)) + "}")
+        state = {"entered": False}
+
+        def fn():
+            state["entered"] = True
+            for key, code in kw.items():
+                self.model[key] = code
+            self.ctx_depth += 1
+            try:
+                self.check(f"inside decorated call {k}")
+                return self.block(s["body"])
+            finally:
+                self.ctx_depth -= 1
+        try:
+            decorated = self.S.context(**real)(fn)
+        except Exception as e:
+            st.hit("outcomes.context_not_usable_as_decorator_" + type(e).__name__)
+            return None
+        sig = None
+        for _ in range(s.get("calls", 2)):
+            frame = {key: self.model[key] for key in kw}
+            state["entered"] = False
+            st.hit("outcomes.context_entered")
+            try:
+                try:
+                    sig = decorated()
+                finally:
+                    if state["entered"]:
+                        for key in kw:
+                            self.model[key] = frame[key]
+            except _Abort:
+                raise
+            except SIM_EXC as e:
+                if not getattr(e, "_sim_injected", False):
+                    self._machinery_raised(k, e)
+                st.hit("outcomes.context_left_by_exception")
+                self.check(f"left decorated call {k} by {type(e).__name__}")
+                raise
+            except BaseException as e:  # noqa: BLE001
+                if not isinstance(e, Exception):
+                    raise
+                self._machinery_raised(k, e)
+            st.hit("outcomes.context_left_normally")
+            self.check(f"after decorated call {k}")
+            if sig == "ret":
+                sig = None
+            elif sig:
+                break
+        return sig
 
     def _machinery_raised(self, k: int, e: BaseException) -> None:
         """A non-injected exception came out of the context manager itself. That alone is not C20's business;
@@ -582,7 +652,7 @@ class C20(Sim):
         "rule_loaded_through_swapped_factory", "raise_inside_context", "observation_inside_context",
         "assign_named_key_rolled_back", "assign_unnamed_key_persists", "helper_created_under_other_settings_used_now",
         "context_inside_exception_handler", "context_inside_finally_while_exception_propagates", "own_settings_instance",
-        "factory_manager_not_yet_created",
+        "factory_manager_not_yet_created", "context_created_before_it_is_entered", "context_used_as_decorator",
     ]
 
     # ---- generation --------------------------------------------------------
@@ -598,8 +668,15 @@ class C20(Sim):
                 nk = rng.choice([1, 1, 2, 2, 3, 7]) if rng.random() < 0.9 else rng.randint(1, 7)
                 keys = rng.sample(KEYS, min(nk, 7))
                 kw = {key: rng.choice(VALUES[key]) for key in keys}
-                out.append({"k": "ctx", "kw": kw,
-                            "body": self.gen_block(rng, depth + 1, budget, in_func, in_loop, raises, named | set(keys))})
+                node = {"k": "ctx", "kw": kw,
+                        "body": self.gen_block(rng, depth + 1, budget, in_func, in_loop, raises, named | set(keys))}
+                rr = rng.random()
+                if rr < 0.10:
+                    node["pre"] = [{"k": "assign", "key": rng.choice(keys), "v": rng.choice(VALUES[rng.choice(keys)])}
+                                   if False else self._pre_assign(rng, keys) for _ in range(rng.randint(1, 2))]
+                elif rr < 0.15:
+                    node = {"k": "decorated", "kw": kw, "calls": 2, "body": self.gen_block(rng, depth + 1, budget, True, False, raises, named | set(keys))}
+                out.append(node)
             elif r < 0.50:
                 # bias: half of the assignments target a key named by an enclosing context
                 if named and rng.random() < 0.5:
@@ -630,6 +707,11 @@ class C20(Sim):
         return out
 
     max_depth = 4
+
+    @staticmethod
+    def _pre_assign(rng, keys) -> dict:
+        key = rng.choice(keys) if rng.random() < 0.8 else rng.choice(KEYS)
+        return {"k": "assign", "key": key, "v": rng.choice(VALUES[key])}
 
     def gen_program(self, rng, raises: bool) -> list:
         budget = [rng.randint(4, 22)]
@@ -739,7 +821,7 @@ class C20(Sim):
         for s in stmts:
             if s["k"] == "assign" and named:
                 st.hit("probes.assign_named_key_rolled_back" if s["key"] in named else "probes.assign_unnamed_key_persists")
-            if s["k"] == "ctx":
+            if s["k"] in ("ctx", "decorated"):
                 self._probe_assignments(s["body"], st, named | set(s["kw"]))
             elif "body" in s:
                 self._probe_assignments(s["body"], st, named)
